@@ -8,7 +8,7 @@ R5 span lifecycle events go through on_event once, under their FmtSpan flag
 """
 from rulekit import Facts, where, proj_names
 from rulekit.sym import PathEval, show
-from rulekit.query import guards_of, recv_fields
+from rulekit.query import norm_cmp, guards_of, recv_fields
 
 FS = "<tracing_subscriber::fmt::fmt_subscriber::Subscriber<C, N, E, W> as tracing_subscriber::subscribe::Subscribe<C>>::"
 W = "tracing_subscriber::fmt::writer::"
@@ -189,7 +189,8 @@ def r4(ck, F):
         for p in PathEval(b).run():
             if p.end == "return":
                 asked = sorted(show(c[2][0]) for c in p.calls if c[1].get("trait") == MW)
-                out.append(([(show(c[0]), c[1]) for c in p.conds if c[0][0] != "const"], show(p.ret), asked))
+                # comparisons in ge/gt form, branch values as "the 0 edge" vs "the other edge" (`match` and `if let .. else` agree)
+                out.append(([(show(norm_cmp(c[0])), 0 if c[1] == 0 else "else") for c in p.conds if c[0][0] != "const"], show(p.ret), asked))
         return b, out
 
     def impl(ty, m):
@@ -214,7 +215,13 @@ def r4(ck, F):
         if not ck.anchor("C13.R4", key, b):
             continue
         norm = sorted(((tuple(c), r) for c, r, _ in got), key=repr)
-        wn = sorted(((tuple(c), r) for c, r in want), key=repr)
+        def wnorm(t):
+            # the expected tables are written with le(...)/ge(...): bring them to the same normal form
+            if t.startswith("le(") and ", " in t:
+                a, b2 = t[3:-1].split(", ", 1)
+                return "ge(%s, %s)" % (b2, a)
+            return t
+        wn = sorted(((tuple((wnorm(t), 0 if v == 0 else "else") for t, v in c), r) for c, r in want), key=repr)
         # factories asked on a path are exactly those whose writer the path returns
         extra = [(r, a) for c, r, a in got if any(x not in r and not any(x in ct for ct, _ in c) for x in a)]
         if extra:
